@@ -1,7 +1,7 @@
 package main
 
 import (
-	_ "verifharness/cases"
+	_ "verifharness/cases/smoke"
 	"verifharness/internal/cli"
 )
 
